@@ -53,9 +53,9 @@ def opOf (j : Json) : Except String ROp := do
   | "set" | "sset" => return .h (.insert (← std (← s 1)) (fromHex (← s 2)))
   | "remove" => return .h (.remove (← std (← s 1)))
   | "append" => return .h (.append (← std (← s 1)) (fromHex (← s 2)))
-  | "xset" => return .h (.insertX (fromHex (← s 1)) (fromHex (← s 2)))
-  | "xremove" => return .h (.removeX (fromHex (← s 1)))
-  | "xappend" => return .h (.appendX (fromHex (← s 1)) (fromHex (← s 2)))
+  | "xset" => return .x (.set (fromHex (← s 1)) (fromHex (← s 2)))
+  | "xremove" => return .x (.remove (fromHex (← s 1)))
+  | "xappend" => return .x (.append (fromHex (← s 1)) (fromHex (← s 2)))
   | "cookie" => return .h (.cookie (SetCookie.build (← cookieOf (fromHex (← s 1)) (fromHex (← s 2)) (arr.getD 3 Json.null))))
   | "text" => return .payload (toBytes "text/plain; charset=UTF-8") (fromHex (← s 1))
   | "html" => return .payload (toBytes "text/html; charset=UTF-8") (fromHex (← s 1))
